@@ -41,6 +41,26 @@ def case(stream, other, e, a):
     return ["c03.assert", [stream, list(other)], enc_res(e), enc_res(a)]
 
 
+def run_case(ref, stream, other, e, a):
+    """the same comparison, reached through the real runTestCasesForServer with a fake client reporting [a]"""
+    return ["c03.run", 1 if ref else 0, [stream, list(other)], enc_res(e), enc_res(a)]
+
+
+# echoed timeouts for an expected one: both edges of the window and far away from them
+def echoed_timeouts(t):
+    xs = [t, t + 1, t - 1, t - GRACE - 1, t - GRACE, t - GRACE + 1, t + GRACE, t // 2, t // 2 - GRACE, t - 10 * GRACE,
+          t - 1000 * GRACE, 1, 0, -1, -GRACE, -2 ** 40, 2 ** 40, max(0, t - GRACE), max(0, t - GRACE) + 1, None]
+    out = []
+    for x in xs:
+        if x not in out:
+            out.append(x)
+    return out
+
+
+EXPECTED_TIMEOUTS = [0, 1, 50, GRACE - 1, GRACE, GRACE + 1, 2 * GRACE, 2000, 10000, 3600000, 2 ** 31, 2 ** 40, 10 ** 9 * GRACE + 7,
+                     2 ** 62, -1, -5]
+
+
 # ---- random structured values ----
 def rnd_vals(rng, lo=0):
     return [rng.choice(VALS) for _ in range(rng.randint(lo, 3))]
@@ -350,7 +370,7 @@ class C03(Prop):
     coq_files = ("Base", "C03_Consts", "C03_Model", "C03_Spec", "C03_Proofs", "C03_Props")
     models = ("C03_Model",)
     packages = {"cc": "internal/app/connectconformance"}
-    kinds = {"c03.assert": "cc", "c03.canon": "cc", "c03.merge": "cc"}
+    kinds = {"c03.assert": "cc", "c03.run": "cc", "c03.canon": "cc", "c03.merge": "cc"}
     consts = ("cc",)
     rule = ("c03.assert: (definition, expected, actual) through the real newResults/assert; expected results = 11 hand-made shapes "
             "(one per stream type / error / GET form) x every stream type and other-codes list, plus seeded random results; for each: "
@@ -358,11 +378,20 @@ class C03(Prop):
             "repeated header/trailer/request header/query parameter, timeout around both window edges, status), every leniency rewrite "
             "(case, extra, join/split on commas with and without spaces, merged metadata, other codes, unspecified message, window, "
             "absent status, unsent count), and random pairs with 0-3 stacked mutations; compared: pass/fail and the sorted multiset of "
-            "discrepancy kinds with positions and names. c03.canon: canonicalizeHeaderVals on every string of length <=5 over "
+            "discrepancy kinds with positions and names. Grace window: 16 expected timeouts (0, 1, below / at / above the window's width, hours, "
+            "2^31, 2^40, 2^62, negative) x 20 echoed values (both edges +-1, half, ten and a thousand windows below, 1, 0, negative, far above, absent), "
+            "on a payload and in an error detail, plus random pairs; the window's width is not a harness constant: TestVerifConsts reads the "
+            "DECLARATION of the grace constant from the package source (value and the unit it is counted in) and the model computes in the "
+            "declared duration. c03.run: the same comparison reached through the real runTestCasesForServer (in-process server, recording fake "
+            "clientRunner reporting the actual result; reference and non-reference client): every expectation shape x identical / every status "
+            "deviation / sampled other deviations and rewrites, expected x reported status grid, random pairs; also required: the reported "
+            "message and the test case are unchanged afterwards (proto.Equal with a copy taken before). c03.canon: canonicalizeHeaderVals on every string of length <=5 over "
             "{a,space,comma} and random lists; c03.merge: mergeHeaders + merged check on random triples. "
             "non-trivial = the assertion reported at least one discrepancy, or a canonical list differs from its input")
     trusted_base = ("Coq 8.16.1 kernel (vm_compute used)", "extraction (ExtrOcamlBasic only) + ocaml/driver.ml",
-                    "vlib generators/comparator, Go overlay harness (error text -> kind enum by anchored prefixes)",
+                    "vlib generators/comparator, Go overlay harness (error text -> kind enum by anchored prefixes; the reader of the grace "
+                    "constant's declaration: go/parser over the package's non-test files, integer literals, products/sums, time units, "
+                    "time.Duration conversions, unit of an untyped number from the name's suffix - an unreadable declaration is an ERROR, not a pass)",
                     "modelled not verified: protocmp/anypb equality of Any values is represented by (type, content) equality of "
                     "deterministically marshalled messages; re-encodings of one message, malformed Any payloads and unknown fields are out of scope")
     assumptions = ("header names, values and messages are ASCII (strings.ToLower Unicode folding is not modelled)",
@@ -370,14 +399,20 @@ class C03(Prop):
                    "Go map iteration order in mergeHeaders does not influence the verdict (only emptiness of the merged check is used)")
     level_text = ("Machine-checked proof (Coq) that the model of assert reports no discrepancy exactly when expected and actual agree up to the "
                   "documented leniencies (assert_iff), with one corollary per deviation kind (universally quantified position) and per leniency; "
-                  "the model is tied to results.go by a differential run over every single deviation / rewrite of generated expectations.")
+                  "the grace window's width is the duration the constant is DECLARED with (value x unit regenerated from the source; "
+                  "grace_is_declared_duration), and the way from the client's report to the assertion in runTestCasesForServer is modelled as "
+                  "the identity for every client (runner_hands_over_reported_result, run_verdict_iff, run_dev_status); "
+                  "the model is tied to results.go and to the runner's response callback by a differential run over every single deviation / "
+                  "rewrite of generated expectations.")
     level_note = ("Trusted: Coq kernel, extraction, OCaml driver, harness; model-to-code correspondence is sampled (systematic single deviations "
                   "and rewrites + random), not proved. Any equality is abstracted to (type, content); the value canonicalisation in the "
-                  "specification is the model's own function, characterised by canon_idempotent / canon_join / canon_split.")
+                  "specification is the model's own function, characterised by canon_idempotent / canon_join / canon_split. "
+                  "The runner glue is covered for the response callback only (one test case, no TLS, no reference-server side band); which "
+                  "test-case definition reaches assert for a gRPC-peer variant is C07's subject (same_but_name).")
     technique = "Coq proof of model = agreement specification (iff) + corollaries; differential model-vs-Go correspondence"
 
     def nontrivial(self, case, res):
-        if case[0] == "c03.assert":
+        if case[0] in ("c03.assert", "c03.run"):
             return res.startswith("(0")
         return True
 
@@ -395,6 +430,49 @@ class C03(Prop):
             yield ["c03.canon", ["".join(rng.choice("ab ,,  ") for _ in range(rng.randint(0, 9))) for _ in range(rng.randint(0, 4))]]
         for _ in range(300 if quick else 4000):
             yield ["c03.merge", enc_h(rnd_headers(rng, 4)), enc_h(rnd_headers(rng, 4)), enc_h(rnd_headers(rng, 5))]
+        # ---- the grace window: every expected timeout (below, at, above the window's width, huge, negative) x echoed
+        # timeouts at both edges and far below / zero / negative / far above; on a payload and in an error detail ----
+        for t in EXPECTED_TIMEOUTS:
+            for x in echoed_timeouts(t):
+                e = res([], [], [{"d": b"p", "i": ri([], t, [(0, b"r")])}])
+                a = res([], [], [{"d": b"p", "i": ri([], x, [(0, b"r")])}])
+                yield case(1, [], e, a)
+                e = res([], [], [], {"c": 4, "m": None, "ds": [("r", ri([], t, [(0, b"r")]))]})
+                a = res([], [], [], {"c": 4, "m": None, "ds": [("r", ri([], x, [(0, b"r")]))]})
+                yield case(rng.choice([1, 2, 3]), [], e, a)
+        for _ in range(200 if quick else 3000):
+            t = rng.choice([rng.randint(0, 3 * GRACE), rng.randint(0, 10 ** 6), rng.randint(0, 2 ** 62)])
+            x = rng.choice([rng.randint(0, max(0, t)), rng.randint(max(0, t - 2 * GRACE), t + 2), rng.randint(-5, GRACE)])
+            e = res([], [], [{"d": b"", "i": ri([], t)}])
+            yield case(rng.randint(0, 5), [], e, res([], [], [{"d": b"", "i": ri([], x)}]))
+        # ---- through the runner: what the client reports is what is asserted, reference client or not ----
+        for st, e in seeds():
+            for ref in (0, 1):
+                yield run_case(ref, st, [], e, e)
+                for what, a in deviations(e):
+                    if what == "status" or rng.random() < (0.06 if quick else 0.5):
+                        yield run_case(ref, st, [], e, a)
+                rews = list(rewrites(st, [], e, rng))
+                for a in rng.sample(rews, min(len(rews), 6 if quick else 60)):
+                    yield run_case(ref, st, [], e, a)
+        for s_e in (200, 429, 503, 0):
+            for s_a in (None, 200, 201, 429, 500, 503, 0):
+                for ref in (0, 1):
+                    for u in (0, 1):
+                        e = res([["x-a", ["1"]]], [], [{"d": b"p", "i": None}], None, s_e)
+                        a = res([["x-a", ["1"]]], [], [{"d": b"p", "i": None}], None, s_a, u)
+                        yield run_case(ref, 1, [], e, a)
+                        e = res([], [], [], {"c": 14, "m": None, "ds": []}, s_e)
+                        a = res([], [], [], {"c": 14, "m": "down", "ds": []}, s_a, u)
+                        yield run_case(ref, rng.randint(1, 5), [13], e, a)
+        for _ in range(150 if quick else 2000):
+            e = rnd_result(rng, 0.9)
+            st = rng.randint(0, 5)
+            other = [rng.choice(CODES) for _ in range(rng.choice([0, 0, 1]))]
+            a = copy.deepcopy(e)
+            for _ in range(rng.choice([0, 1, 1, 2])):
+                a = rng.choice(list(deviations(a)))[1] if rng.random() < 0.5 else rng.choice(list(rewrites(st, other, a, rng)))
+            yield run_case(rng.randint(0, 1), st, other, e, a)
         # ---- systematic: seeds x definitions ----
         bases = []
         for st, e in seeds():
